@@ -46,6 +46,50 @@ def desc_from_json(j):
                         'vars': [j2f(v) for v in b['vars']]} for b in j['blocks']]}
 
 
+# ---------------------------------------------------------------- a guard against readers that never return
+import signal as _signal
+
+
+class Hang(Exception):
+    pass
+
+
+class _Guard:
+    armed = False
+    fired = False
+
+
+def _alarm(signum, frame):
+    if _Guard.armed:
+        _Guard.fired = True
+        raise Hang()
+
+
+def guarded(fn, limit=2):
+    """fn() under a repeating CPU-time timer -> ('OK', value) | ('RAISE', exception) | ('HANG',).
+    CPU time because the machine may be loaded; repeating because PyTOUGH's bare `except:` clauses can swallow one
+    interruption (and then return garbage): once the timer has fired the outcome is HANG whatever came back."""
+    old = _signal.signal(_signal.SIGVTALRM, _alarm)
+    _Guard.fired = False; _Guard.armed = True
+    res = None
+    try:
+        try:
+            _signal.setitimer(_signal.ITIMER_VIRTUAL, limit, 0.05)
+            try:
+                res = ('OK', fn())
+            except Hang:
+                res = ('HANG',)
+            except Exception as e:
+                res = ('RAISE', e)
+        finally:
+            _Guard.armed = False
+            _signal.setitimer(_signal.ITIMER_VIRTUAL, 0)
+            _signal.signal(_signal.SIGVTALRM, old)
+    except Hang:
+        res = ('HANG',)
+    return ('HANG',) if _Guard.fired or res is None else res
+
+
 # ---------------------------------------------------------------- building / dumping objects
 def build(desc):
     import numpy as np
@@ -210,11 +254,14 @@ def roundtrip(desc, tmpdir):
         out['write_raised'] = type(e).__name__
         return out
     out['text1'] = open(f1, newline='').read()
-    try:
-        inc2 = t2incon(f1, num_variables=desc['nv'], check_blocknames=desc['check'])
-    except Exception as e:
-        out['read_raised'] = type(e).__name__ + ': ' + str(e)[:100]
+    r = guarded(lambda: t2incon(f1, num_variables=desc['nv'], check_blocknames=desc['check']), limit=max(2, len(out['text1']) // 20000))
+    if r[0] == 'HANG':
+        out['read_raised'] = 'the reader does not return'
         return out
+    if r[0] == 'RAISE':
+        out['read_raised'] = type(r[1]).__name__ + ': ' + str(r[1])[:100]
+        return out
+    inc2 = r[1]
     out['got'] = snapshot(inc2)
     try:
         inc2.write(f2, reset=desc['reset'])
